@@ -41,6 +41,9 @@ def build(ck):
             _axioms(ck, D, N)
         if want(f"bands/D{D}N{N}"):
             _bands(ck, D, N)
+    if not thorough and want("bands/D2N3"):
+        # band masks are max-norm shells in D >= 2: a per-axis mask loses the modes that straddle two shells
+        _bands(ck, 2, 3)
     if want("h1"):
         _h1(ck, 1, 6)
     if want("correlation"):
@@ -155,7 +158,14 @@ def _bands(ck, D, N):
     enc = Encoded(f, ins, tag="bd")
     enc.validate(ck, what=f"bands/D{D}N{N}")
     pre = [ins[0].s > 0] + enc.interp.sound_facts() + _floor_pre(enc.interp)
-    ck.add(f"bands/D{D}N{N}/partition", sym.equal_goal(enc.outs[0][()], enc.outs[1][()]), pre, family="Fourier metric is additive over a full band partition", timeout=300)
+    def replay(model):
+        rng = np.random.default_rng(1)
+        u = jnp.asarray(rng.normal(size=(C,) + (N,) * D))
+        v = jnp.asarray(rng.normal(size=(C,) + (N,) * D))
+        full, parts = f(1.3, u, v)
+        return {"reproduced": abs(float(full) - float(parts)) > 1e-9 * max(1.0, abs(float(full))), "detail": f"fourier_MSE full spectrum {float(full)!r} vs sum over the band partition {float(parts)!r} on a random pair"}
+
+    ck.add(f"bands/D{D}N{N}/partition", sym.equal_goal(enc.outs[0][()], enc.outs[1][()]), pre, family="Fourier metric is additive over a full band partition", timeout=300, replay=replay)
 
 
 def _h1(ck, D, N):
